@@ -371,6 +371,11 @@ class C04(Check):
         if len(plans) > cap:
             rng.shuffle(plans)
             plans = plans[:cap]
+        # the sandbox dies inside the same step twice in a row: the attempt that follows an interruption is interrupted too
+        # (the function entered next after the first crash is that step's next attempt)
+        for n in rng.sample(fn_ns, min(3 if tier == "quick" else 12, len(fn_ns))):
+            plans.append([{"kind": "crash", "at": "fn", "n": n, "phase": rng.choice(["entry", "inside", "exit"])},
+                          {"kind": "crash", "at": "fn", "n": n + 1, "phase": rng.choice(["entry", "inside", "exit"])}])
         return plans
 
     def oracle(self, ix, cfg, golden):
@@ -611,8 +616,15 @@ class C10(Check):
             w_, b_ = rng.choice([2, 4]), rng.choice([2, 3])
             p_ = b_ + rng.choice([1.0, 1.5, 2.5])
             blk = rng.choice([1.0, 2.0])
-            kind = rng.choice(["wfcond", "wfcond", "step", "child"])
-            if kind == "wfcond":
+            kind = rng.choice(["wfcond", "wfcond", "step", "child", "step-retry", "step-retry"])
+            if kind == "step-retry":
+                # the operation the orphan arrives at is a RETRY attempt that a dead invocation left STARTED
+                x = {"op": "step", "fn": {"attempts": [{"do": "raise", "cls": "ValueError", "msg": "boom"},
+                                                       {"do": "ret", "v": ["int", 1], "block": blk}]},
+                     "retry": {"kind": "cfg", "max_attempts": 3, "initial": 1, "max": 1, "rate": 1, "jitter": "NONE"}}
+                if rng.random() < 0.5:
+                    x["sem"] = "amo"
+            elif kind == "wfcond":
                 x = {"op": "wfcond", "check": {"attempts": [{"do": "ret", "v": ["int", 1], "block": blk}]}, "strategy": [{"stop": 1}],
                      "initial": ["int", 0]}
             elif kind == "step":
@@ -769,6 +781,22 @@ class C13(Check):
             cfg["program"] = {"body": [{"op": "parallel", "branches": brs}, {"op": "step"}]}
             cfg["latency"] = rng.choice([[0.001, 0.002], [0.001, 0.05], [0.01, 0.3]])
             cfg.pop("limits", None)
+        elif rng.random() < 0.2:
+            # a serialisation that restores a NORMAL FORM of what it is given (plain JSON: tuples come back as lists): the first
+            # poll gets the configured initial state itself, every later poll what the codec restores
+            sts = [st for st in oracles.statements(cfg["program"]).values() if st["op"] == "wfcond"]
+            if sts:
+                st = rng.choice(sts)
+
+                def jv():
+                    return rng.choice([["tuple", [["int", rng.randrange(9)], ["int", 10]]], ["dict", {"w": ["tuple", [["int", 0], ["str", "a"]]], "n": ["int", 1]}],
+                                       ["list", [["tuple", [["int", 1]]], ["int", rng.randrange(9)]]], ["int", rng.randrange(100)], ["str", "s"],
+                                       ["dict", {"k": ["int", rng.randrange(9)]}]])
+                st["initial"] = jv()
+                for a_ in st["check"]["attempts"]:
+                    if a_["do"] == "ret":
+                        a_["v"] = jv()
+                st["fserdes"] = {"tag": "N", "norm": True}
 
     def oracle(self, ix, cfg, golden):
         return oracles.check_c13(ix, cfg)
@@ -1264,6 +1292,13 @@ class C16(Check):
                 # a message full of characters that JSON escapes: half as many characters as encoded bytes
                 program["body"][-1]["esc"] = True
                 program["body"][-1]["size"] = max(1, program["body"][-1]["size"] // rng.choice([2, 3, 4]))
+            if rng.random() < 0.4:
+                # the oversized final error is not raised by handler code itself: a durable operation fails for good with it
+                # and the handler lets the SDK's exception through (top level or out of a child context)
+                r_ = program["body"][-1]
+                failing = {"op": "step", "fn": {"attempts": [{"do": "raise", "cls": r_["cls"], "size": r_["size"], "uni": bool(r_.get("uni"))}]},
+                           "retry": {"kind": "preset", "name": "none"}}
+                program["body"][-1] = failing if rng.random() < 0.6 else {"op": "child", "body": [failing]}
         elif rng.random() < 0.3:
             program["ret"] = bigu(rl) if uni else big(rl)
         ext = {}
@@ -1425,7 +1460,8 @@ class C18(Check):
                          "retry": {"kind": "preset", "name": "none"}})
         elif r < 0.85:
             cfg["program"]["ret"] = rng.choice([["set"], ["obj"], ["bytes", "00ff"], ["dec", "1.5"], ["big", 5000], ["none"],
-                                                ["dict", {"a": ["tuple", [["int", 1]]]}], ["float", 1e300], ["dt", "2024-01-02T03:04:05+00:00"]])
+                                                ["dict", {"a": ["tuple", [["int", 1]]]}], ["float", 1e300], ["dt", "2024-01-02T03:04:05+00:00"],
+                                                ["kdict", "tuple"], ["kdict", "bytes", 1], ["kdict", "frozenset"], ["kdict", "tuple", 1]])
         if rng.random() < 0.15:
             cfg["bad_event"] = rng.choice([{}, {"DurableExecutionArn": "a"}, {"CheckpointToken": "t"}, [],
                                            {"DurableExecutionArn": "a", "CheckpointToken": "t", "InitialExecutionState": {"Operations": [{"Id": "x"}]}},
